@@ -138,7 +138,7 @@ func c16HostNoTopic(c *vf.Ctx) {
 	if !c.Active(sub) {
 		return
 	}
-	n := c.N(16, 200)
+	n := c.N(32, 200)
 	for i := 0; i < n; i++ {
 		if !c.Mine(sub, i) || c16TooManyHangs() {
 			continue
@@ -278,7 +278,7 @@ func c16Concurrent(c *vf.Ctx) {
 	if !c.Active(sub) {
 		return
 	}
-	n := c.N(300, 5000)
+	n := c.N(800, 5000)
 	for i := 0; i < n; i++ {
 		if !c.Mine(sub, i) || c16TooManyHangs() {
 			continue
